@@ -430,6 +430,30 @@ def strip_optional_attributes(prs, rnd):
     return n
 
 
+def blank_hyperlink_targets(data):
+    """Pre-state (on package bytes): the first hyperlink relationship of each slide keeps its id but has Target="" (a link
+    'cleared' by another producer; the run still refers to it).  -> bytes or None when the deck has no hyperlink."""
+    import zipfile
+
+    from lxml import etree
+
+    zin = zipfile.ZipFile(io.BytesIO(data))
+    out, hit = io.BytesIO(), 0
+    with zipfile.ZipFile(out, "w", zipfile.ZIP_DEFLATED) as zout:
+        for n in zin.namelist():
+            blob = zin.read(n)
+            if n.startswith("ppt/slides/_rels/") and b"/hyperlink\"" in blob:
+                root = etree.fromstring(blob)
+                for rel in root:
+                    if rel.get("Type", "").endswith("/hyperlink") and rel.get("TargetMode") == "External":
+                        rel.set("Target", "")
+                        hit += 1
+                        break
+                blob = etree.tostring(root, xml_declaration=True, encoding="UTF-8", standalone=True)
+            zout.writestr(n, blob)
+    return out.getvalue() if hit else None
+
+
 def strip_notes_master_ref(data):
     """Pre-state (on package bytes): the presentation part no longer refers to the notes master (relationship and
     p:notesMasterIdLst removed); the master stays reachable from the notes slides only.  -> bytes, or None when the deck has
@@ -497,13 +521,31 @@ def canon_part(blob):
     return opcx.canonical(normalise(root))
 
 
-def graph(pkg):
-    """{relationship path: (content type, canonical payload, external rels)}; path = tuple of
-    (reltype, ordinal among the source's same-type relationships in document order)."""
-    out = {}
-    seen = {}
+class Graph(dict):
+    """{relationship path: value} plus `reach`: {part name: [paths reaching it]} (part names are per-package and legitimately
+    differ between two saves; only the PATHS sets are compared)."""
 
-    def walk(src, path):
+    reach = None
+
+    def shared_with(self, path):
+        """The other paths that reach the part `path` reaches (empty for external / cut entries)."""
+        for paths in self.reach.values():
+            if path in paths:
+                return [q for q in paths if q != path]
+        return []
+
+
+def graph(pkg):
+    """{relationship path: (content type, canonical payload) | ('external', target) | ('ref', path of the ancestor)};
+    path = tuple of (reltype, ordinal among the source's same-type relationships in document order).  EVERY path is expanded
+    down to the point where it would re-enter a part it is already inside (a cycle, recorded as 'ref' to that ancestor), so a
+    part's entry does not depend on which of several routes happens to come first in document order (a new notes slide on an
+    earlier slide used to move the notes master's 'first' route); which paths share one part is kept in `.reach`."""
+    out = Graph()
+    out.reach = {}
+    payloads = {}
+
+    def walk(src, path, stack):
         by_type = {}
         for r in pkg.rels(src) or []:
             k = by_type.get(r.type, 0)
@@ -514,14 +556,18 @@ def graph(pkg):
             if not pkg.has_part(r.target):
                 continue
             p2 = path + ((r.type, k),)
-            if r.target in seen:
-                out[p2] = ("ref", seen[r.target])
+            if r.target in stack:
+                out[p2] = ("ref", stack[r.target])
                 continue
-            seen[r.target] = p2
-            out[p2] = (pkg.ctype(r.target), canon_part(pkg.blob(r.target)))
-            walk(r.target, p2)
+            if r.target not in payloads:
+                payloads[r.target] = (pkg.ctype(r.target), canon_part(pkg.blob(r.target)))
+            out.reach.setdefault(r.target, []).append(p2)
+            out[p2] = payloads[r.target]
+            stack[r.target] = p2
+            walk(r.target, p2, stack)
+            del stack[r.target]
 
-    walk("/", ())
+    walk("/", (), {})
     return out
 
 
@@ -534,6 +580,14 @@ def compare_graphs(ga, gb):
             diffs.append(("part-disappeared", k, None))
         elif ga[k] != gb[k]:
             diffs.append(("part-changed", k, (ga[k], gb[k])))
+    # two routes that led to ONE part must still do so (and two that led to different parts must not have been merged)
+    common = set(ga) & set(gb)
+    cls_a = {q: frozenset(x for x in paths if x in common) for paths in ga.reach.values() for q in paths if q in common}
+    cls_b = {q: frozenset(x for x in paths if x in common) for paths in gb.reach.values() for q in paths if q in common}
+    for q in sorted(set(cls_a) & set(cls_b), key=repr):
+        if cls_a[q] != cls_b[q]:
+            diffs.append(("sharing-changed", q, None))
+            break
     return diffs
 
 
@@ -664,6 +718,21 @@ CREATING = {
 }
 
 
+_STRAIGHT = [None, None]
+
+
+def _straight_save(data):
+    """Pkg of open(data) -> save with nothing in between (one-slot cache: the same deck is used for every creating accessor)."""
+    import pptx
+    from vlib import opcx
+
+    if _STRAIGHT[0] != data:
+        b = io.BytesIO()
+        pptx.Presentation(io.BytesIO(data)).save(b)
+        _STRAIGHT[:] = [data, opcx.Pkg.from_bytes(b.getvalue())]
+    return _STRAIGHT[1]
+
+
 def creating_case(data, label, accessor, acc, witness):
     """One documented-as-creating accessor applied alone: the documented effect is the only change allowed."""
     import re
@@ -697,11 +766,15 @@ def creating_case(data, label, accessor, acc, witness):
     # the rels item re-spelt is a changed meaning too); compared by (source part, rId) on the straight save, where no part was renamed
     ext_in = {(src, r.id): r.raw for src in ["/"] + [n for n in pin.part_names()] for r in (pin.rels(src) or []) if r.external}
     if ext_in:
+        pa = _straight_save(data)  # (b0 was traversed, which legitimately renames slide parts of a deck whose names are out of order)
         ext_out = {(src, r.id): r.raw for src in ["/"] + [n for n in pa.part_names()] for r in (pa.rels(src) or []) if r.external}
         acc.count("external_targets_compared", len(ext_in))
         for key_, tgt in sorted(ext_in.items()):
             if key_ in ext_out and ext_out[key_] != tgt:
                 acc.violation("external-target-changed-by-saving", "%s: %s %s targets %r in the deck opened and %r after a straight save" % (label, key_[0], key_[1], tgt, ext_out[key_]), witness)
+                break
+            if key_ not in ext_out and pa.has_part(key_[0]):
+                acc.violation("external-relationship-lost-by-saving", "%s: %s %s (-> %r) is not in the straight save although its source part is" % (label, key_[0], key_[1], tgt), witness)
                 break
     was = undeclared_mc_prefixes(pin)
     acc.count("saved_packages_checked_for_mc_prefix_declarations", 2)
@@ -717,9 +790,13 @@ def creating_case(data, label, accessor, acc, witness):
                 key = "relationship-changed"
             else:
                 key = "part-changed:" + describe_change(pair[0], pair[1])
+        elif kind == "sharing-changed":
+            key = kind + ":" + path[-1][0].rsplit("/", 1)[-1]
         else:
-            val = (gb if kind == "part-appeared" else ga).get(path)
-            is_ref = val is not None and val[0] in ("ref", "external")
+            g1, g2 = (gb, ga) if kind == "part-appeared" else (ga, gb)
+            val = g1.get(path)
+            # a further route to a part the other package has too is a reference that (dis)appeared, not a part
+            is_ref = val is not None and (val[0] in ("ref", "external") or any(q in g2 for q in g1.shared_with(path)))
             key = ("reference" + kind[4:] if is_ref else kind) + ":" + path[-1][0].rsplit("/", 1)[-1]
         if re.search(allowed, key):
             seen_documented = True
@@ -737,7 +814,7 @@ def creating_case(data, label, accessor, acc, witness):
 def plan(tier, seed):
     from vlib import env
 
-    decks = [os.path.relpath(p, env.REPO) for p in env.corpus_decks()]
+    decks = [os.path.relpath(p, env.REPO) for p in env.corpus_decks()] + ["manufactured:%d" % k for k in range(8)]  # + decks with irregular part names / ids
     orders = 1 if tier == "quick" else 30
     units = []
     for i in range(16):
@@ -789,6 +866,9 @@ def one_case(data, label, rnd, passes, nsaves, acc, witness):
     base.save(b0)
     prs = pptx.Presentation(io.BytesIO(data))
     ACCESSORS.clear()
+    if nsaves:
+        prs.save(io.BytesIO())  # "saving it any number of times": also once before anything was read
+        acc.count("saves_before_the_first_read")
     for i in range(nsaves):
         traverse(prs, rnd, passes)
         prs.save(io.BytesIO())
@@ -819,12 +899,24 @@ def one_case(data, label, rnd, passes, nsaves, acc, witness):
     acc.case(desc=witness, nontrivial=nslides >= 1 and len(ACCESSORS) >= 30, cls="+".join(passes))
 
 
+def load_deck(d):
+    """Bytes of corpus deck `d` (path relative to the repository) or of 'manufactured:<k>' (slide / notes-slide / image part
+    names and relationship ids as producers other than PowerPoint write them; numbering done by the harness at zip level)."""
+    from vlib import env
+
+    if d.startswith("manufactured:"):
+        from vlib import histories
+
+        return histories.manufactured_deck(env.rng("manufactured", "C12", int(d.split(":")[1])), 3)[0]
+    return open(os.path.join(env.REPO, d), "rb").read()
+
+
 def run_unit(unit, tier, seed, acc):
     from vlib import env
 
     if unit["kind"] == "creating":
         for d in unit["decks"]:
-            data = open(os.path.join(env.REPO, d), "rb").read()
+            data = load_deck(d)
             for accessor in CREATING:
                 w = {"deck": d, "creating": accessor}
                 try:
@@ -833,7 +925,7 @@ def run_unit(unit, tier, seed, acc):
                     acc.count("deck_not_traversable:%s" % type(e).__name__)
     elif unit["kind"] == "corpus":
         for d in unit["decks"]:
-            data = open(os.path.join(env.REPO, d), "rb").read()
+            data = load_deck(d)
             for o in range(unit["orders"]):
                 for passes in (("basic",), ("basic", "format")):
                     rnd = env.rng("C12", d, seed, o, passes)
@@ -866,6 +958,11 @@ def run_unit(unit, tier, seed, acc):
                     run.run()
                     if i % 3 == 0:
                         orphan_jump_target(run.prs)
+                    if i % 4 == 0 and len(run.prs.slides):  # a run hyperlink, so that the blank-target pre-state applies
+                        tb_ = run.prs.slides[0].shapes.add_textbox(0, 0, 914400, 914400)
+                        rn_ = tb_.text_frame.paragraphs[0].add_run()
+                        rn_.text = "link"
+                        rn_.hyperlink.address = "http://to-be-blanked.example/%d" % i
                     if i % 4 == 2 and len(run.prs.slides):  # a notes slide with text, so that the stripped-reference pre-state applies
                         run.prs.slides[0].notes_slide.notes_text_frame.text = "notes of generated deck %d" % i
                     if i % 4 == 3 and partial_xfrms(run.prs, env.rng("C12x", seed, i)):
@@ -892,6 +989,11 @@ def run_unit(unit, tier, seed, acc):
                         acc.count("generated_decks_with_cell_linked_chart_titles")
                     buf = io.BytesIO()
                     run.prs.save(buf)
+                    if i % 4 == 0:
+                        blanked = blank_hyperlink_targets(buf.getvalue())
+                        if blanked is not None:
+                            buf = io.BytesIO(blanked)
+                            acc.count("generated_decks_with_a_blank_hyperlink_target")
                     if i % 4 == 2:
                         stripped = strip_notes_master_ref(buf.getvalue())
                         if stripped is not None:
@@ -913,10 +1015,10 @@ def replay(w, acc):
     from vlib import env
 
     if "creating" in w:
-        data = open(os.path.join(env.REPO, w["deck"]), "rb").read()
+        data = load_deck(w["deck"])
         creating_case(data, w["deck"], w["creating"], acc, w)
     elif "deck" in w:
-        data = open(os.path.join(env.REPO, w["deck"]), "rb").read()
+        data = load_deck(w["deck"])
         rnd = env.rng("C12", w["deck"], env.seed(), w["order"], tuple(w["passes"]))
         if w.get("stripped_notes_master_ref"):
             data, rnd = strip_notes_master_ref(data), env.rng("C12", w["deck"], env.seed(), "stripped")
